@@ -37,7 +37,7 @@ def jobs(tier):
                          bounds=f"signature '{sig}' (concrete), every body of 0..{n} arbitrary bytes, both byte orders; loops unwound {n+3}, validator recursion <= 4 (unwinding assertions on)",
                          shape=f"body of signature {sig}", cost=(50 if heavy else 1) + n))
     # VARIANT bodies, split by the (concrete) contained signature
-    for vsig, n, vt in (("y", 10, 0), ("u", 12, 0), ("s", 12, 0), ("ay", 12, 0))   # v[(yy)] N8 and v[v] N5: no verdict in 22 / 40+ min, not registered:
+    for vsig, n, vt in (("y", 10, 0), ("u", 12, 0), ("s", 12, 0), ("ay", 12, 0)):   # v[(yy)] N8 and v[v] N5: no verdict in 22 / 40+ min, not registered
         J.append(Job(name=f"b.body.v[{vsig}].N{n}", group="C01.b", harness="harness/C01_body.c", defines={"SIG": '"v"', "N": n, "VSIG": '"' + vsig + '"'},
                      real=BODY_REAL, env=ENV + ["list_lifo.c"], unwind=n + 3, unwindset=["validate_body_helper:4", "ref_value:4"], timeout=3600 if vt else 600, mem_gb=16,
                      tiers=("thorough",) if vt else ("quick", "thorough"), ignore=ART, termination_is_property=True, encodes=["validate_body_helper (VARIANT branch)", "_dbus_type_reader_init_types_only"],
